@@ -80,6 +80,14 @@ let handle fields impl : string option * string list =
     if starts impl "ok" && spec <> Ok () then begin
       if starts truth "corrupt" then fail "accepted-corrupted-sibling"
       else if starts truth "wrongera" then fail "accepted-wrong-era"
+      (* an honest proof re-labelled with another slot (whole periods away / across capella_start / past the accumulator end).
+         That the spec rejects is not a matter of testing: by C03_accept_capella_to_deneb / C03_accept_post_deneb /
+         C03_accept_merge_to_capella an accepted proof proves the leaf at the position fixed by the CLAIMED slot
+         (summary_tree ... (pp_slot p), resp. historical root pp_slot p / 8192); by C03_summary_index_wrap a slot below
+         capella_start addresses an index above 2^51 - 758 and by C03_summaries_underflow_err / C03_summaries_out_of_range_err /
+         C03_roots_out_of_range_err that is an error for every real accumulator.  So "implementation accepted, proved-sound
+         spec model says Err" is a violation of "a proof for another slot never verifies". *)
+      else if starts truth "wrongslot" then fail "accepted-wrong-slot"
       else fail "accepted-forged-proof"
     end;
     (* completeness on what the generator built honestly *)
